@@ -14,7 +14,9 @@
 EXTENDS IndexOps, TLC, Json
 
 CONSTANTS MinSteps, MaxSteps,
-          FamStreams, FamBase, FamGroups, ParkA, ParkB, EncN,  \* families: Stream counts / number of shapes / Record-group counts (empty = off)
+          FamStreams, FamBase, FamGroups, ParkA, ParkB, EncN,
+          HashU, HashV,       \* value classes of lzma_index_hash_append (empty = no index_hash calls)
+  \* families: Stream counts / number of shapes / Record-group counts (empty = off)
           CommonU, CommonV,   \* value classes of the extra (weighting) append actions of the random walks
           Volume      \* TRUE: also offer the macro calls appendn / catn (many Records / Streams at once)
 VARIABLES st, hist, done
@@ -43,6 +45,7 @@ TinyF == {F(1), F(10)}
 NoValues == {}
 FamStreamsQ == 5..6   FamGroupsQ == {5}
 FamStreamsT == 5..8   FamGroupsT == {5, 6}
+HashUB == {U4, U5, Near, UnpaddedMax}   HashVB == {Zero, One, VliMax}
 EncNQ == {0, 1, 127, 128, 300, 16384}
 ParkAQ == {300, 600, 1100, 1600, 2100}   ParkBQ == {100, 500, 1000}
 ParkAT == {300, 512, 600, 1024, 1100, 1536, 1600, 2048, 2100, 2600}   ParkBT == {1, 100, 500, 512, 1000, 1100}
@@ -96,6 +99,10 @@ Next == \/ Running /\ \E o \in CandInit(st) : Do(o)
         \/ Running /\ \E o \in CandDup(st) : Do(o)
         \/ Running /\ \E o \in CandEncDec(st) : Do(o)
         \/ Running /\ \E o \in CandIterInit(st) : Do(o)
+        \/ Running /\ HashU # {} /\ \E o \in CandHashInit(st) : Do(o)
+        \/ Running /\ \E o \in CandHashAppend(st, HashU, HashV) : Do(o)
+        \/ Running /\ \E o \in CandHashAppend(st, HashU, HashV) : Do(o)
+        \/ Running /\ HashU # {} /\ \E o \in CandHashDecode(st) : Do(o)
         \/ Running /\ \E o \in CandIterNext(st) : Do(o)
         \/ Running /\ \E o \in CandIterNext(st) : Do(o)
         \/ Running /\ \E o \in CandIterNext(st) : Do(o)
@@ -114,6 +121,7 @@ View == <<st, done, IF FamDone THEN <<hist[Len(hist)]>> ELSE <<>> >>
 Emit == ~done \/ PrintT(<<"PLAN", ToJson(Predict(hist))>>)
 \* per-transition emission (ACTION_CONSTRAINT, with VIEW): every transition of the state graph once, with the
 \* shortest history that reaches its source state
+ViewNoIter == <<st.reg, st.hash, done>>       \* (index_hash plans: the iterator is irrelevant)
 EmitT == done' \/ PrintT(<<"PLAN", ToJson(Predict(hist'))>>)
 OneU == {U5}
 OneV == {One}
